@@ -91,12 +91,20 @@ def strategy(tier):
 def verdict(path, sub=False):
     """'valid' | 'invalid' | 'error' through the command and the function
     (sub=True: additionally through a real `biom validate-table` process)."""
-    from biom.cli.table_validator import validate_table, _validate_table
+    from ..cli import command
+    validate_table = command("validate-table")
     import io
     import contextlib
     try:
-        ok, report = _validate_table(path)
-        v1 = "valid" if ok else "invalid"
+        from biom.cli.table_validator import _validate_table
+    except ImportError:       # helper renamed: the command route remains
+        _validate_table = None
+    try:
+        if _validate_table is None:
+            v1 = None
+        else:
+            ok, report = _validate_table(path)
+            v1 = "valid" if ok else "invalid"
     except (Exception, SystemExit):
         v1 = "error"
     buf = io.StringIO()
@@ -109,7 +117,15 @@ def verdict(path, sub=False):
     except Exception:
         v2 = "error"
     out = buf.getvalue()
+    if v1 is None:
+        v1 = v2
+    # the report text is informative only; if it claims validity the exit
+    # status must agree
     says_valid = "is a valid BIOM-formatted file" in out
+    if says_valid and v2 == "invalid":
+        raise Violation("report-and-exit-status-disagree", "report says "
+                        "valid, exit status says invalid: %r" % out[-200:])
+    says_valid = says_valid or v2 == "valid"
     if sub:
         from ..cli import invoke
         rc, out2 = invoke(validate_table, "validate-table", ["-i", path],
@@ -639,7 +655,7 @@ def check(case, rec):
                 t.to_hdf5(f, gby, **dkw)
         # (A) what the library writes is valid
         v = verdict(base, sub=case.get("sub", False))
-        if v != ("valid", "valid", True):
+        if v[0] != "valid" or v[1] != "valid":
             raise Violation("library-output-not-valid", "%s written by the "
                             "library: verdict %r" % (container, v))
         muts = JSON_MUTS if container == "json" else _h5_muts()
